@@ -1,8 +1,322 @@
 /-
-C15 — property theorems (stub; see DESIGN.md §6).
+C15 — the incrementally maintained Calinski-Harabasz value equals the batch index
+of the current labelled data; a sample joins an existing cluster only if that
+strictly improves the validity index.
+Property theorems only; the algebra lives in `ArtProofs/ICVI.lean`.
+
+Everything is stated for an arbitrary ordered field `α` (characteristic 0 follows),
+any dimension `d`, any data, any history.  Floating-point rounding is outside the
+theorems (finding F26: the `WGSS == 0` test on a float with rounding residue).
 -/
-import ArtModel.Basic
+import Mathlib.Algebra.Order.Field.Rat
+import Mathlib.Tactic.NormNum
+import ArtProofs.ICVI
 
 namespace Art.C15
+
+open Art.ICVI
+
+set_option linter.unusedSectionVars false
+
+variable {α : Type} [Field α] [LinearOrder α] [IsStrictOrderedRing α] {d : Nat}
+
+/-! ### incremental = batch -/
+
+/-- The freshly constructed object describes the empty data set. -/
+theorem init_inv : Inv d (init d : State α) [] := Art.ICVI.init_inv
+
+/-- `add_sample(x, l)` followed by `update` keeps the invariant: the record then
+describes the data with the labelled point `(x, l)` added — for a new label and for
+an existing one. -/
+theorem add_preserves_inv {st : State α} {D : List (List α × Nat)} {x : List α} {l : Nat}
+    (hwf : WF d D) (hx : x.length = d) (hI : Inv d st D) :
+    Inv d (update st (addSample st x l)) ((x, l) :: D) :=
+  add_inv hwf hx hI
+
+/-- `switch_label(x, lo, ln)` followed by `update`, under the API's precondition
+(the sample `(x, lo)` is in the data; for `lo ≠ ln` its cluster has ≥ 2 members):
+the call does not raise and the record then describes the data with that one
+sample relabelled — to a new label or to an existing one, or to itself. -/
+theorem switch_preserves_inv {st : State α} {D₁ D₂ : List (List α × Nat)} {x : List α}
+    {lo ln : Nat} (hwf : WF d (D₁ ++ (x, lo) :: D₂)) (hI : Inv d st (D₁ ++ (x, lo) :: D₂))
+    (hpre : lo ≠ ln → 2 ≤ (members (D₁ ++ (x, lo) :: D₂) lo).length) :
+    ∃ p, switchLabel st x lo ln = some p ∧ Inv d (update st p) (D₁ ++ (x, ln) :: D₂) :=
+  switch_inv hwf hI hpre
+
+/-- **Invariant.**  After any permitted interleaving of add-sample and
+switch-label operations (`Reach`), the record describes the labelled data `D`:
+`n = |D|`, `mu = mean D`, one entry per label present with
+`(n_l, v_l, CP_l, G_l) = (|D_l|, mean D_l, Σ‖x − v_l‖², 0)`, `WGSS = Σ_l CP_l`, and
+`criterion_value` is the batch index. -/
+theorem icvi_inv {st : State α} {D : List (List α × Nat)} (h : Reach d st D) : Inv d st D :=
+  (reach_inv h).2
+
+/-- What the invariant says about one dictionary entry, spelled out. -/
+theorem inv_entry {st : State α} {D : List (List α × Nat)} (hI : Inv d st D) {l : Nat} {c : Clu α}
+    (hc : (l, c) ∈ st.CD) :
+    l ∈ D.map (·.2) ∧ c.n = (members D l).length ∧ c.v = vmean d (members D l) ∧
+      c.CP = ssq (members D l) (vmean d (members D l)) ∧ c.G = vzero d := by
+  have hk : l ∈ st.CD.map (·.1) := List.mem_map.mpr ⟨(l, c), hc, rfl⟩
+  rw [hI.entries, List.mem_map] at hc
+  obtain ⟨k, _, he⟩ := hc
+  simp only [Prod.mk.injEq] at he
+  obtain ⟨rfl, rfl⟩ := he
+  exact ⟨(hI.keys_mem k).mp hk, rfl, rfl, rfl, rfl⟩
+
+/-- `WGSS` is the sum of the compactness values stored in the dictionary. -/
+theorem inv_wgss_sum {st : State α} {D : List (List α × Nat)} (hI : Inv d st D) :
+    st.WGSS = (st.CD.map (fun e => e.2.CP)).sum := by
+  rw [hI.wgss_eq, wgssB_keys hI.keys_nodup hI.keys_mem]
+  conv_rhs => rw [hI.entries]
+  simp [List.map_map, Function.comp_def]
+
+/-- **Incremental = batch.**  After any permitted sequence of operations the
+tracked `criterion_value` is the Calinski-Harabasz index of the current labelled
+data (0 while that is undefined). -/
+theorem criterion_eq_batch {st : State α} {D : List (List α × Nat)} (h : Reach d st D) :
+    st.crit = chBatch D := by
+  obtain ⟨hwf, hI⟩ := reach_inv h
+  rw [chBatch_eq hwf]
+  exact hI.crit_eq
+
+/-- The candidate value returned by `add_sample` (before any `update`) is already
+the batch index of the data with the sample added: what `iCVI_match` compares in
+online mode. -/
+theorem add_candidate_eq_batch {st : State α} {D : List (List α × Nat)} (h : Reach d st D)
+    {x : List α} (hx : x.length = d) (l : Nat) :
+    (addSample st x l).crit = chBatch ((x, l) :: D) := by
+  rw [← update_crit st]
+  exact criterion_eq_batch (Reach.add x l h hx)
+
+/-- The candidate value returned by `switch_label` is the batch index of the
+relabelled data: what `iCVI_match` compares in offline mode. -/
+theorem switch_candidate_eq_batch {st : State α} {D₁ D₂ : List (List α × Nat)} {x : List α}
+    {lo ln : Nat} (h : Reach d st (D₁ ++ (x, lo) :: D₂))
+    (hpre : lo ≠ ln → 2 ≤ (members (D₁ ++ (x, lo) :: D₂) lo).length) {p : Cand α}
+    (hp : switchLabel st x lo ln = some p) :
+    p.crit = chBatch (D₁ ++ (x, ln) :: D₂) := by
+  rw [← update_crit st]
+  exact criterion_eq_batch (Reach.switch x lo ln p h hpre hp)
+
+/-- The batch index depends on the labelled data only as a multiset. -/
+theorem chBatch_perm {D D' : List (List α × Nat)} (p : D.Perm D') (hwf : WF d D) :
+    chBatch D = chBatch D' := by
+  rw [chBatch_eq hwf, chBatch_eq (hwf.perm p)]
+  exact chBatchD_perm p hwf
+
+/-! ### iCVIFuzzyART training: the tracked value is the index of `(X, labels_)` -/
+
+/-- **Online mode.**  Whatever labels `cs` the search returned, after
+`add_sample(x_i, c_i)` + `update` for every sample the tracked value is the batch
+index of `(X, labels_)`. -/
+theorem icvifuzzy_tracks_online (X : List (List α)) (cs : List Nat) (hX : Rows d X) :
+    (trackOnline d X cs).crit = chBatch (X.zip cs) :=
+  track_online X cs hX
+
+/-- **Offline mode.**  All samples are first added with label 0, then sample `i` is
+switched from 0 to the returned label `c_i`.  Whatever the search returned — the
+first sample necessarily gets label 0 (`first_label_zero`) — no `switch_label` call
+raises, and after training the tracked value is the batch index of `(X, labels_)`. -/
+theorem icvifuzzy_tracks_offline (X : List (List α)) (cs : List Nat) (hX : Rows d X)
+    (hl : cs.length = X.length) (h0 : ∀ c, cs.head? = some c → c = 0) :
+    ∃ st, trackOffline d X cs = some st ∧ st.crit = chBatch (X.zip cs) :=
+  track_offline X cs hX hl h0
+
+/-- `step_fit` on a model without categories returns label 0 (so `cs[0] = 0`). -/
+theorem first_label_zero {X' Wt β μ θ : Type} [LinearOrder β] (K : Kernel X' Wt β μ)
+    (cfg : SearchCfg μ θ) (th0 : θ) (veto : Nat → Bool) (s : ArtState Wt) (x : X')
+    (h : s.W = []) : (stepFit K cfg th0 veto s x).2 = 0 := by
+  simp [stepFit, h, applyWinner]
+
+/-! ### the gates -/
+
+section gates
+variable {X Wt β μ θ : Type} [LinearOrder β]
+
+/-- **iCVIFuzzyART gate.**  If a training step assigns the sample to an *existing*
+category `c` (`step_fit` returned `c < len(W)`), then the reset function answered
+`True` for `c`: the user function (if any) agreed, the iCVI call did not raise, and
+the candidate criterion is strictly larger than the current one. -/
+theorem icvi_gate (K : Kernel X Wt β μ) (cfg : SearchCfg μ θ) (th0 : θ) (s : ArtState Wt) (x : X)
+    (offline : Bool) (st : State α) (xv : List α) (cur : Nat) (user : Nat → Bool) (c : Nat)
+    (h : (stepFit K cfg th0 (gateVeto user (icviMatch offline st xv cur)) s x).2 = c)
+    (hc : c < s.W.length) :
+    user c = true ∧
+      ∃ p, (if offline then switchLabel st xv cur c else some (addSample st xv c)) = some p ∧
+        st.crit < p.crit := by
+  have hw := stepFit_existing K cfg th0 _ s x c h hc
+  have hv := stepSearch_winner_allowed K cfg th0 _ s.W x c hw
+  simp only [gateVeto, Bool.not_eq_false', Bool.and_eq_true] at hv
+  refine ⟨hv.1, ?_⟩
+  have hm := hv.2
+  unfold icviMatch at hm
+  split at hm
+  · rename_i p hp
+    exact ⟨p, hp, by simpa using hm⟩
+  · simp at hm
+
+/-- Online mode, in terms of the index itself: a sample joins an existing cluster
+`c` only if the Calinski-Harabasz index of the data *with* `(x, c)` is strictly
+larger than the index of the data before the step. -/
+theorem icvi_gate_online (K : Kernel X Wt β μ) (cfg : SearchCfg μ θ) (th0 : θ) (s : ArtState Wt)
+    (x : X) {st : State α} {D : List (List α × Nat)} (hR : Reach d st D) {xv : List α}
+    (hx : xv.length = d) (user : Nat → Bool) (c : Nat)
+    (h : (stepFit K cfg th0 (gateVeto user (icviMatch false st xv 0)) s x).2 = c)
+    (hc : c < s.W.length) :
+    chBatch D < chBatch ((xv, c) :: D) := by
+  obtain ⟨_, p, hp, hlt⟩ := icvi_gate K cfg th0 s x false st xv 0 user c h hc
+  simp only [Bool.false_eq_true, if_false, Option.some.injEq] at hp
+  subst hp
+  rwa [criterion_eq_batch hR, add_candidate_eq_batch hR hx] at hlt
+
+/-- Offline mode: the sample `(x, cur)` is relabelled to an existing cluster `c`
+only if the index of the relabelled data is strictly larger than the current one. -/
+theorem icvi_gate_offline (K : Kernel X Wt β μ) (cfg : SearchCfg μ θ) (th0 : θ) (s : ArtState Wt)
+    (x : X) {st : State α} {D₁ D₂ : List (List α × Nat)} {xv : List α} {cur : Nat}
+    (hR : Reach d st (D₁ ++ (xv, cur) :: D₂)) (user : Nat → Bool) (c : Nat)
+    (hpre : cur ≠ c → 2 ≤ (members (D₁ ++ (xv, cur) :: D₂) cur).length)
+    (h : (stepFit K cfg th0 (gateVeto user (icviMatch true st xv cur)) s x).2 = c)
+    (hc : c < s.W.length) :
+    chBatch (D₁ ++ (xv, cur) :: D₂) < chBatch (D₁ ++ (xv, c) :: D₂) := by
+  obtain ⟨_, p, hp, hlt⟩ := icvi_gate K cfg th0 s x true st xv cur user c h hc
+  simp only [if_true] at hp
+  rwa [criterion_eq_batch hR, switch_candidate_eq_batch hR hpre hp] at hlt
+
+/-- **CVIART gate.**  `vi` is the chosen sklearn score (an oracle), `old` the
+labelling before the step, `cand c` the labelling with the current sample set to
+`c`.  If the step assigns the sample to an existing category `c`, then the user
+function agreed and either fewer than two categories exist, or the candidate
+labelling's index is strictly better (`<` for Davies-Bouldin, `>` otherwise). -/
+theorem cvi_gate {L : Type} (K : Kernel X Wt β μ) (cfg : SearchCfg μ θ) (th0 : θ)
+    (s : ArtState Wt) (x : X) (db : Bool) (vi : L → α) (old : L) (cand : Nat → L)
+    (user : Nat → Bool) (c : Nat)
+    (h : (stepFit K cfg th0 (gateVeto user (cviMatch s.W.length db vi old cand)) s x).2 = c)
+    (hc : c < s.W.length) :
+    user c = true ∧
+      (s.W.length < 2 ∨ (if db then vi (cand c) < vi old else vi old < vi (cand c))) := by
+  have hw := stepFit_existing K cfg th0 _ s x c h hc
+  have hv := stepSearch_winner_allowed K cfg th0 _ s.W x c hw
+  simp only [gateVeto, Bool.not_eq_false', Bool.and_eq_true] at hv
+  refine ⟨hv.1, ?_⟩
+  have hm := hv.2
+  unfold cviMatch at hm
+  by_cases h2 : s.W.length < 2
+  · exact Or.inl h2
+  · right
+    cases db <;> simpa [h2] using hm
+
+end gates
+
+/-! ### outside the property: `remove_sample`'s own mean
+
+`remove_sample` is only used by `switch_label`, which ignores its `mu` (it keeps the
+unchanged mean, and `switch_preserves_inv` shows that is right).  Called on its own,
+its `mu` update `mu - (mu - x)/(n - 1)` has the wrong sign: -/
+
+/-- the reachable state after `add_sample([0], 0)`, `add_sample([2], 0)` -/
+def exSt : State ℚ :=
+  let s1 := update (init 1) (addSample (init 1) [0] 0)
+  update s1 (addSample s1 [2] 0)
+
+/-- `remove_sample([2], 0)` on `{0, 2}` reports the mean `[2]`; the mean of what
+remains is `[0]`. -/
+theorem remove_mean_counterexample :
+    Reach 1 exSt [([2], 0), ([0], 0)] ∧
+      (removeSample exSt [2] 0).map (·.mu) = some [2] ∧ vmean 1 [[(0 : ℚ)]] = [0] := by
+  refine ⟨.add [2] 0 (.add [0] 0 .init rfl) rfl, ?_, ?_⟩
+  · norm_num [exSt, init, update, addSample, cluAdd, setCD, removeSample, lookup, deltaRemove,
+      deltaAdd, vdivs, vsub, vadd, vzero, smul, dot, vmul, vsum, l2sq, chValue, sepTerm]
+  · norm_num [vmean, vsumAll, vadd, vzero, vdivs]
+
+/-! ### non-vacuity -/
+
+/-- two clusters on the line: `{0, 1}` and `{4, 6}` (data in reverse insertion order) -/
+def exD : List (List ℚ × Nat) := [([6], 1), ([4], 1), ([1], 0), ([0], 0)]
+
+/-- a permitted history producing `exD` exists … -/
+example : ∃ st : State ℚ, Reach 1 st exD :=
+  ⟨_, .add [6] 1 (.add [4] 1 (.add [1] 0 (.add [0] 0 .init rfl) rfl) rfl) rfl⟩
+
+/-- … and its batch index is a non-trivial number: `81/5`. -/
+example : chBatch exD = 81 / 5 := by
+  norm_num [exD, chBatch, chBatchD, dimOf, labelsOf, dedupL, wgssB, bgssB, members, ssq, vmean,
+    vsumAll, vdivs, vzero, l2sq, dot, vmul, vsub, vadd, vsum]
+
+/-- hence the tracked value after that history is `81/5` -/
+example (st : State ℚ) (h : Reach 1 st exD) : st.crit = 81 / 5 := by
+  rw [criterion_eq_batch h]
+  norm_num [exD, chBatch, chBatchD, dimOf, labelsOf, dedupL, wgssB, bgssB, members, ssq, vmean,
+    vsumAll, vdivs, vzero, l2sq, dot, vmul, vsub, vadd, vsum]
+
+/-- the precondition of `switch_label` is satisfiable: relabel `4` from cluster 1 to a
+new cluster 2 (cluster 1 has two members) — the history is permitted and does not raise -/
+example (st : State ℚ) (h : Reach 1 st exD) :
+    ∃ st' : State ℚ, Reach 1 st' [([6], 1), ([4], 2), ([1], 0), ([0], 0)] := by
+  have hpre : (1 : Nat) ≠ 2 →
+      2 ≤ (members (α := ℚ) ([([6], 1)] ++ ([4], 1) :: [([1], 0), ([0], 0)]) 1).length := by
+    intro _; simp [members]
+  obtain ⟨p, hp, _⟩ := switch_preserves_inv (α := ℚ) (d := 1) (D₁ := [([6], 1)]) (x := [4]) (lo := 1) (ln := 2)
+    (D₂ := [([1], 0), ([0], 0)]) (reach_inv h).1 (icvi_inv h) hpre
+  have := Reach.switch (D₁ := [([6], 1)]) (D₂ := [([1], 0), ([0], 0)]) [4] 1 2 p h hpre hp
+  exact ⟨_, this⟩
+
+/-- offline training on that data (returned labels `0,0,1,1`, first label 0): does not
+raise, and ends with the same non-trivial value -/
+example : ∃ st : State ℚ, trackOffline 1 [[0], [1], [4], [6]] [0, 0, 1, 1] = some st ∧
+    st.crit = 81 / 5 := by
+  obtain ⟨st, h, hc⟩ := icvifuzzy_tracks_offline (α := ℚ) (d := 1) [[0], [1], [4], [6]] [0, 0, 1, 1]
+    (by intro x hx; simp at hx; rcases hx with rfl | rfl | rfl | rfl <;> rfl) rfl
+    (by intro c hc; simp at hc; exact hc.symm)
+  refine ⟨st, h, ?_⟩
+  rw [hc]
+  norm_num [chBatch, chBatchD, dimOf, labelsOf, dedupL, wgssB, bgssB, members, ssq, vmean,
+    vsumAll, vdivs, vzero, l2sq, dot, vmul, vsub, vadd, vsum]
+
+/-- the reachable state after `{0, 1} → 0`, `{4} → 1` (criterion 49/3) -/
+def exSt3 : State ℚ :=
+  let s1 := update (init 1) (addSample (init 1) [0] 0)
+  let s2 := update s1 (addSample s1 [1] 0)
+  update s2 (addSample s2 [4] 1)
+
+/-- the iCVI gate allows `4 → cluster 1` (index 49/3 → 49) … -/
+theorem ex_gate_allows : icviMatch false exSt3 [4] 0 1 = true := by
+  norm_num [icviMatch, exSt3, init, update, addSample, cluAdd, setCD, lookup, deltaAdd, vdivs, vsub,
+    vadd, vzero, smul, dot, vmul, vsum, l2sq, chValue, sepTerm]
+
+/-- … and vetoes `6 → cluster 1` (49/3 → 81/5) and `6 → cluster 0` -/
+theorem ex_gate_vetoes : icviMatch false exSt3 [6] 0 1 = false ∧ icviMatch false exSt3 [6] 0 0 = false := by
+  constructor <;>
+  norm_num [icviMatch, exSt3, init, update, addSample, cluAdd, setCD, lookup, deltaAdd, vdivs, vsub,
+    vadd, vzero, smul, dot, vmul, vsum, l2sq, chValue, sepTerm]
+
+/-- a two-category module whose activations are its weights, vigilance always passing -/
+def exK : Kernel Unit Int Int Unit :=
+  { choice := fun _ _ w => some w, matchv := fun _ _ => (), update := fun _ w => w, newW := fun _ => 0 }
+def exCfg : SearchCfg Unit Unit :=
+  { passes := fun _ _ => true, track := fun t _ => t, keep := true, tilde := false }
+
+/-- the hypotheses of `icvi_gate` are satisfiable: the step joins existing category 1 … -/
+example : (stepFit exK exCfg () (gateVeto (fun _ => true) (icviMatch false exSt3 [4] 0))
+    ⟨[0, 1], [1, 1], 2, [0, 1]⟩ ()).2 = 1 := by
+  simp [stepFit, stepSearch, activations, strikeVetoed, exCfg, exK, search, nanargmax, nanargmaxV,
+    gateVeto, ex_gate_allows, applyWinner]
+
+/-- … and when the gate vetoes every category the search goes on and a new cluster (label 2) is created -/
+example : (stepFit exK exCfg () (gateVeto (fun _ => true) (icviMatch false exSt3 [6] 0))
+    ⟨[0, 1], [1, 1], 2, [0, 1]⟩ ()).2 = 2 := by
+  simp [stepFit, stepSearch, activations, strikeVetoed, exCfg, exK, search, nanargmax, nanargmaxV,
+    gateVeto, ex_gate_vetoes.1, ex_gate_vetoes.2, applyWinner]
+
+/-- the CVIART gate both allows and vetoes -/
+example : cviMatch 3 false (fun l : List Nat => (l.sum : ℚ)) [0, 0] (fun c => [0, c]) 1 = true := by
+  simp [cviMatch]
+example : cviMatch 3 true (fun l : List Nat => (l.sum : ℚ)) [0, 0] (fun c => [0, c]) 1 = false := by
+  simp [cviMatch]
+example : cviMatch 1 true (fun l : List Nat => (l.sum : ℚ)) [0, 0] (fun c => [0, c]) 1 = true := by
+  simp [cviMatch]
+
+/-- the numeric classes the driver executes at `Rat` are the ones the theorems are about -/
+example : (inferInstance : NatCast ℚ) = (Rat.instNatCast) := rfl
+example : (inferInstance : Div ℚ) = (Rat.instDiv) := rfl
 
 end Art.C15
